@@ -17,7 +17,7 @@ from .path import Path, explore, fresh_name
 from .sorts import SortReg, TypeDesc, ANY
 from .values import (Atomic, ModuleV, ClassV, BuiltinClass, FuncV, PropV, BoundMethod, BuiltinFn, EnumV,
                      ObjV, DtV, StrT, JoinT, LitB, CompB, RangeB, SeqT, SeqV, SetV, DictV, ExcV,
-                     RaiseSignal, ReturnSignal, BreakSignal, ContinueSignal, Infeasible, Unsupported,
+                     RaiseSignal, ReturnSignal, BreakSignal, ContinueSignal, Infeasible, Unsupported, FrameViolation,
                      is_z3, is_sym_bool)
 
 
@@ -125,6 +125,8 @@ class Interp:
         self.set_iteration_sites = []
         self.inline_limit = {}
         self.frame_violations = []
+        self.atom_defs = {}
+        self.unify_with_solver = False
         self.nonrecursive = set()   # functions whose contract says `decreases: none` (no self-call allowed)
         self.ghost_depth = 0     # >0 while evaluating side-effect-free specification code
 
@@ -378,6 +380,8 @@ class Interp:
         if key in reg:
             return reg[key]
         name = 'ex#' + hashlib.md5(key.encode()).hexdigest()[:10]
+        if name not in path.atom_names:
+            path.atom_names.append(name)
         if free:
             f = z3.Function(name, *[z3.IntSort() for _ in free], z3.BoolSort())
             atom = f(*free)
@@ -390,6 +394,8 @@ class Interp:
         neg_var = z3.Int(fresh_name('q'))
         neg = z3.Implies(z3.Not(atom), z3.Implies(ops.in_range(base, neg_var),
                                                   z3.Not(z3.substitute(body, (ph, neg_var)))))
+        self.atom_defs[name] = {'free': list(free), 'base': base, 'body': body, 'ph': ph, 'atom': atom,
+                                'fn': (f if free else None)}
         if free:
             path.add_hyp(list(free), pos, 'exists-def')
             path.add_hyp(list(free) + [neg_var], neg, 'exists-neg') if len(free) == 1 else None
@@ -401,6 +407,70 @@ class Interp:
             path.add_index(sk)
         reg[key] = atom
         return atom
+
+    def unify_atoms(self, path):
+        """Meta-rule (exists congruence): two exists-atoms over the same base whose bodies are point-wise
+        equivalent are equal.  The side condition is PROVED (path.entails at a fresh element) before the equality
+        is given to the path."""
+        done = path.__dict__.setdefault('_unified', set())
+        names = [n for n in path.atom_names if n in self.atom_defs]
+        for a in range(len(names)):
+            for b in range(a + 1, len(names)):
+                key = (names[a], names[b])
+                if key in done:
+                    continue
+                done.add(key)
+                da, db = self.atom_defs[names[a]], self.atom_defs[names[b]]
+                if len(da['free']) != len(db['free']) or isinstance(da['base'], RangeB) != isinstance(db['base'], RangeB):
+                    continue
+                common = [z3.Int(fresh_name('u')) for _ in da['free']]
+                sa = list(zip(da['free'], common))
+                sb = list(zip(db['free'], common))
+
+                def sub(e, pairs):
+                    return z3.substitute(e, *pairs) if (pairs and is_z3(e)) else e
+                if isinstance(da['base'], RangeB):
+                    ba = (sub(da['base'].lo, sa), sub(da['base'].hi, sa))
+                    bb = (sub(db['base'].lo, sb), sub(db['base'].hi, sb))
+                    same_base = canon(ba) == canon(bb)
+                    if not same_base and z3.simplify(z3.And(ba[0] == bb[0] if (is_z3(ba[0]) or is_z3(bb[0])) else
+                                                            z3.BoolVal(ba[0] == bb[0]),
+                                                            ba[1] == bb[1] if (is_z3(ba[1]) or is_z3(bb[1])) else
+                                                            z3.BoolVal(ba[1] == bb[1]))).eq(z3.BoolVal(True)):
+                        same_base = True
+                    if not same_base and self.unify_with_solver:
+                        qb = path.child()
+                        lo_eq = (ba[0] == bb[0]) if (is_z3(ba[0]) or is_z3(bb[0])) else z3.BoolVal(ba[0] == bb[0])
+                        hi_eq = (ba[1] == bb[1]) if (is_z3(ba[1]) or is_z3(bb[1])) else z3.BoolVal(ba[1] == bb[1])
+                        same_base = qb.check(z3.Not(z3.And(lo_eq, hi_eq)), timeout_ms=500, proof_step=True) == z3.unsat
+                    rng = RangeB(*ba)
+                else:
+                    ba, bb = sub(da['base'], sa), sub(db['base'], sb)
+                    same_base = ba.sort() == bb.sort() and ba.eq(bb)
+                    rng = ba
+                if not same_base:
+                    continue
+                x = z3.Int(fresh_name('ux'))
+                fa = z3.substitute(sub(da['body'], sa), (da['ph'], x))
+                fb = z3.substitute(sub(db['body'], sb), (db['ph'], x))
+                if fa.eq(fb) or z3.simplify(fa).eq(z3.simplify(fb)):
+                    ok = True
+                elif not self.unify_with_solver:
+                    ok = False
+                else:
+                    q = path.child()
+                    q.add_index(x)
+                    for c in common:
+                        q.add_index(c)
+                    ok = q.check(ops.in_range(rng, x), z3.Not(fa == fb), timeout_ms=900, proof_step=True) == z3.unsat
+                if not ok:
+                    continue
+                if common:
+                    path.add_hyp(common, da['fn'](*common) == db['fn'](*common), 'exists-congruence')
+                    for c in da['free'] + db['free']:
+                        path.add_index(c)
+                else:
+                    path.define(da['atom'] == db['atom'])
 
     # ---- equality -------------------------------------------------------------------------------
     def eq(self, a, b, path):
@@ -518,7 +588,7 @@ class Interp:
                 if len(b.body.blocks) == 1 and isinstance(b.body.blocks[0], LitB) and \
                         len(b.body.blocks[0].items) == 1:
                     it = self.to_z3(b.body.blocks[0].items[0])
-                    if it is not None and it.eq(b.base[b.var]):
+                    if it is not None and (it.eq(b.base[b.var]) or it.eq(ops.nth(b.base, b.var))):
                         parts.append(b.base)
                         continue
                 return None
@@ -616,7 +686,7 @@ class Interp:
     def seq_of_base(self, base, elem_td: TypeDesc, path):
         """Identity comprehension over a z3 Seq expression."""
         var = z3.Int('i#' + hashlib.md5(base.sexpr().encode()).hexdigest()[:8])
-        item = self.wrap_elem(elem_td, base[var])
+        item = self.wrap_elem(elem_td, ops.nth(base, var))
         return SeqT([CompB(var, base, True, SeqT([LitB([item])]), elem_td)])
 
     def wrap_elem(self, td, expr):
@@ -817,7 +887,7 @@ class Interp:
     def frame_violation(self, path, cell, what):
         """Mutation of a list that belongs to an immutable input object."""
         self.frame_violations.append((what, list(self.call_stack)))
-        raise Unsupported(f'mutation ({what}) of a list owned by an input object in {self.call_stack[-1:]}')
+        raise FrameViolation(what, self.call_stack)
 
     def journal_write(self, path, cell, what):
         j = path.journal
@@ -1227,9 +1297,9 @@ class Interp:
                 path.define(z3.Length(r) == z3.If(n > 0, n, z3.IntVal(0)))
                 # character-class facts only (no regular expression: measured to make sat checks explode)
                 if s in ops.WHITESPACE:
-                    path.define(ops.all_ws(r))
+                    path.define(ops.all_ws(r, path))
                 if s not in ops.LINE_BREAKS:
-                    path.define(ops.no_break(r))
+                    path.define(ops.no_break(r, path))
             return mkstr([r])
         raise Unsupported('string repetition')
 
@@ -1352,10 +1422,10 @@ class Interp:
             self.raise_builtin('TypeError', "'NoneType' object is not callable")
         raise Unsupported(f'call of {type(fn).__name__}')
 
-    def call_function(self, fn: FuncV, args, kwargs, path):
+    def call_function(self, fn: FuncV, args, kwargs, path, bypass_override=False):
         qn = fn.qualname
         ov = self.overrides.get(qn)
-        if ov is not None and not getattr(path, 'no_override', None) == qn:
+        if ov is not None and not bypass_override:
             if isinstance(ov, FuncV):
                 fn = ov
             else:
@@ -1787,6 +1857,10 @@ class Interp:
                 return ('return', v, args)
             except RaiseSignal as rs:
                 return ('raise', rs.exc, args)
+            except FrameViolation as fv:
+                return ('frame', fv, args)
+            except TerminationViolation as tv:
+                return ('diverge', tv, args)
 
         return explore(parent, run, max_paths)
 
